@@ -24,7 +24,8 @@ EXPLANATION = (
     "in both A and b, and the (i, j) sort key uses as stride the length of the very ordering vector the vertices are "
     "read from (j*stride + i is injective and column-major only then); (R5) PSD completion assigns W[eta, nu] with eta filtered "
     "against both the separator and the supernode nu it is paired with, so the clique blocks determined by the solve are not "
-    "overwritten.")
+    "overwritten, and the cliques are visited root-first (descending post-order) there and in the compact row layout; (R6) the "
+    "aggregate sparsity mask marks every row with a stored entry of A and every row with b != 0 (either sign).")
 ASSUMPTIONS = ['rustc MIR construction and trait resolution are correct',
                'the sdp code is analysed by type-checking only (cargo check with empty blas-src/lapack-src); it is never linked or run']
 
@@ -417,6 +418,13 @@ def completion_disjoint(rep, F, tag):
                 ok_tab = False
         R.check(ok_tab and len(tested) == len(captured) and len(captured) >= 2, 'eta-excludes-all' + tag,
                 'the free row set is filtered by %s over the captured sets %s: it must exclude every captured clique set' % (sorted(tested), [c[:40] for c in captured]), g.loc())
+        # parents before children: the supernodes are post-ordered, so the completion (and the row layout of the compact
+        # augmentation) must walk the cliques in descending order
+        for fn_, upper in (('psd_complete', r'sub\(arg2\.sntree\.n_cliques, 1_usize\)'), ('add_entries_with_sparsity_pattern', r'arg8\.sntree\.n_cliques'), ('clique_rows_map', r'arg2\.n_cliques')):
+            g_ = F.one(name=fn_)
+            its = [canon(g_.sym_operand(c_.args[0])).replace('withoverflow', '').replace(').0', ')') for c_ in g_.calls if c_.callee.name == 'into_iter']
+            R.check(any(re.fullmatch(r'rev\(Range::Range\(0_usize, %s\)\)' % upper, x) for x in its), 'descending-order|%s%s' % (fn_, tag),
+                    '%s iterates over %s: the cliques must be visited in descending (root-first) order' % (fn_, [x[:70] for x in its]), g_.loc())
         for c in sa:
             a = [canon(f.sym_operand(x)) for x in c.args]
             sets = [x for x in a[1:3] if not x.startswith('collect(filter(')]
@@ -424,6 +432,44 @@ def completion_disjoint(rep, F, tag):
             R.check(len(sets) == 1 and len(eta) == 1 and sets[0] in captured, 'paired-set-excluded|%d%s' % (sa.index(c), tag),
                     'subsasgn writes W[%s, %s]: the free rows are not filtered against the set they are paired with (%s not among the sets the filter '
                     'excludes), so entries of the clique block itself are overwritten' % (a[1][:50], a[2][:50], sets[:1] and sets[0][:60]), f.loc(c.sp))
+
+    R.guard(body)
+
+
+def sparsity_mask(rep, F, tag):
+    """The clique structure is built from the aggregate sparsity of [A b] on the rows of a PSD cone: a row that has an entry
+    in A *or a nonzero constant in b* must be part of the pattern, otherwise it belongs to no clique ("every entry of the
+    original constraint rows appears exactly once" fails: the row loses its slack, or its index stays unset)."""
+    R = rep.rule('C18.R6', 'aggregate sparsity mask: every row of A with a stored entry and every row with b != 0 is marked')
+
+    def body():
+        f = F.one(name='find_aggregate_sparsity_mask')
+        a_marked = b_marked = False
+        b_test = []
+        for val, ret, ev, tr in Walker(f, cut_loops=True).leaves():
+            if ret[0] != 'cut':
+                continue
+            stores = [e for e in ev if e[0] == 'store' and str(e[2]) in ('1', 'true')]
+            own = {k: v for k, v in val.items() if not k.startswith('discr(')}
+            in_a = any('iter(arg1.rowval)' in k and v == 1 for k, v in val.items() if k.startswith('discr('))
+            in_b = any('iter(arg2)' in k and v == 1 for k, v in val.items() if k.startswith('discr('))
+            if in_a and not in_b and stores and not own:
+                a_marked = True
+            if in_b:
+                for k, v in own.items():
+                    b_test.append((k, v, bool(stores)))
+        R.check(a_marked, 'A-rows' + tag, 'the rows of the stored entries of A are not all marked unconditionally', f.loc())
+        ok = bool(b_test)
+        for k, v, marked in b_test:
+            is_ne = re.fullmatch(r'ne\(.*, zero\(\)\)', k) is not None or re.fullmatch(r'ne\(zero\(\), .*\)', k) is not None
+            is_eq = re.fullmatch(r'eq\(.*zero\(\).*\)', k) is not None
+            if is_ne:
+                ok = ok and (marked == bool(v))
+            elif is_eq:
+                ok = ok and (marked == (not bool(v)))
+            else:
+                ok = False
+        R.check(ok, 'b-rows' + tag, 'rows are marked from b under %s: a row must be marked exactly when its b entry is nonzero (either sign)' % [(k[:60], v, m) for k, v, m in b_test], f.loc())
 
     R.guard(body)
 
@@ -437,6 +483,7 @@ def run(ctx, rep, tier):
         gates(rep, F, tag)
         index_spaces(rep, F, tag)
         completion_disjoint(rep, F, tag)
+        sparsity_mask(rep, F, tag)
     from . import c05
     for cfg in CONFIGS:
         c05.hash_order(rep, ctx.facts(cfg), ctx.cg(cfg), '[%s]' % cfg)
